@@ -20,7 +20,19 @@ def check_case(ctx, cs):
     p = c["p"]
     op = o["op"]
     tags = ["kind=" + c["kind"], "p=%d" % p]
-    if op == "span":
+    if op == "spans":
+        U = fl(frv(c["U"]))
+        us = [float(fr(x)) for x in o["us"]]
+        small = {"p": p, "U": c["U"], "us": o["us"]}
+        ctx.count(("spans", p, tuple(map(tuple, c["U"])), tuple(map(tuple, o["us"]))))
+        for fname, f in (("default", None), ("linear", helpers.find_span_linear), ("binary", helpers.find_span_binsearch)):
+            if f is None:
+                ok, r = _call(ctx, "helpers.find_spans", tags + ["unsorted_list"], small, helpers.find_spans, p, U, o["nc"], list(us))
+            else:
+                ok, r = _call(ctx, "helpers.find_spans", tags + ["unsorted_list", fname], small, helpers.find_spans, p, U, o["nc"], list(us), f)
+            if ok and list(r) != list(o["spans"]):
+                ctx.violate("helpers.find_spans", tags + ["unsorted_list", fname], small, {"expected": o["spans"], "got": list(r)})
+    elif op == "span":
         U = fl(frv(c["U"]))
         u = float(fr(o["u"]))
         nc = o["nc"]
@@ -157,7 +169,7 @@ def run(ctx):
     for tag, cs in res.cases:
         ops[cs["out"]["op"]] = ops.get(cs["out"]["op"], 0) + 1
         check_case(ctx, cs)
-    for need in ("eval", "span", "generate", "normalize", "check"):
+    for need in ("eval", "span", "spans", "generate", "normalize", "check"):
         if not ops.get(need):
             raise core.MachineryError("vacuous model: action %s never taken" % need)
     ctx.traces = len(res.cases)
